@@ -92,8 +92,12 @@ class Ctx:
         self.proof = {"obligations": 0, "discharged": 0, "theorems": {}, "broken": []}
         self.corr = {"lines": 0, "diffs": 0}
         self.notes = []
+        self.phases = []          # (name, seconds since start)
         kf = json.load(open(os.path.join(VERIF, "known_findings.json")))
         self.known = [k for k in kf.get("findings", []) if k["property"] == prop]
+
+    def phase(self, name):
+        self.phases.append((name, round(time.time() - self.t0, 1)))
 
     # ---------------------------------------------------------------- Go side
     def build_harness(self, name=None, race=False, tags="verif"):
@@ -302,6 +306,8 @@ class Ctx:
         cov["known_findings_hit"] = [h["key"] for h in self.known_hits]
         if self.notes:
             cov["notes"] = self.notes
+        if self.phases:
+            cov["phase_times_s"] = self.phases
         ev = {"property_id": self.prop, "tier": self.tier, "seed": self.seed, "level": level,
               "coverage": cov, "assumptions": list(assumptions), "wall_s": round(wall, 2),
               "violations": len(self.violations) + (1 if (proof_broken and not self.violations) else 0)}
